@@ -2,7 +2,7 @@
 import os
 
 from . import core
-from .rules import stdio, cert, mark, exact, optstore, inval, idx, atomic, own, tokens, idxclass, copy, pair, structfree, buf, div, counter, sentinel, appendinit, verdict, basismap, zerotol, escape, lenclass, djsym, ndet, useb4check, norms, opencheck, shell, esolver, errlost, rescan, certdep, neverset, fmt, defaults, scratch, fullscan, slotleak, floatidx, sensemap, trunc, vtypezero, allockind, intdiv, strscan, localfield, rawidx, argcap, staleptr, condalloc, lpstate, vstattype, alphabet, outleak, fieldleak, lenm1, basisdim, dupmark, rowcopy, normlen, logonly, decacc, nzcount, infmap, lognofail, outunset, dupentry, digitseen, signedidx, strcap, nulterm, finite, nullret, pcheck, probstat, dzfresh, kwtable, headguard, hitused
+from .rules import stdio, cert, mark, exact, optstore, inval, idx, atomic, own, tokens, idxclass, copy, pair, structfree, buf, div, counter, sentinel, appendinit, verdict, basismap, zerotol, escape, lenclass, djsym, ndet, useb4check, norms, opencheck, shell, esolver, errlost, rescan, certdep, neverset, fmt, defaults, scratch, fullscan, slotleak, floatidx, sensemap, trunc, vtypezero, allockind, intdiv, strscan, localfield, rawidx, argcap, staleptr, condalloc, lpstate, vstattype, alphabet, outleak, fieldleak, lenm1, basisdim, dupmark, rowcopy, normlen, logonly, decacc, nzcount, infmap, lognofail, outunset, dupentry, digitseen, signedidx, strcap, nulterm, finite, nullret, pcheck, probstat, dzfresh, kwtable, headguard, hitused, optptr
 from .effects import Effects
 
 FIX = os.path.join(os.path.dirname(os.path.abspath(__file__)), "fixtures")
@@ -479,7 +479,8 @@ PROPS = {
                        "of the raw->lp index maps (seed C11/1)",
     },
     "C12": {
-        "rules": [lambda prog, tier: verdict.run(prog), lambda prog, tier: verdict.run_subject(prog),
+        "rules": [lambda prog, tier: verdict.run(prog), lambda prog, tier: verdict.run_subject(prog), lambda prog, tier: verdict.run_basicdual(prog),
+                  lambda prog, tier: optptr.run(prog),
                   lambda prog, tier: localfield.run(prog, shared_eff(prog), scope=lambda f: f.unit.endswith("qsopt_ex/exact.c") or "fct_mpq" in f.unit or "basis_mpq" in f.unit, floor=8),
                   lambda prog, tier: vtypezero.run(prog),
                   lambda prog, tier: vstattype.run(prog),
@@ -543,7 +544,7 @@ PROPS = {
     },
     "C17": {
         "rules": [lambda prog, tier: buf.run(prog),
-                  lambda prog, tier: idx.run(prog),
+                  lambda prog, tier: idx.run(prog), lambda prog, tier: idx.run_pubstruct(prog), lambda prog, tier: optptr.run(prog),
                   lambda prog, tier: idxclass.run(prog),
                   lambda prog, tier: lenclass.run(prog),
                   lambda prog, tier: lenclass.run_capacity(prog),
@@ -757,7 +758,7 @@ _ADD = {
                            "repair) STAT_ZERO is reachable for a free variable only, so the basic solution of the returned basis takes every non-basic "
                            "variable at one of its bounds; (R-VSTATTYPE) a warm start reconciles the statuses of the supplied basis with the variable types before "
                            "anything reads them. (R-LOCALFIELD) the verdict functions read no field of a local record that nothing wrote. (R-SUBJECT) no exact verdict function re-points its basis parameter, so the optimality test and the rational check judge the record the "
-                           "caller supplied."},
+                           "caller supplied. (R-BASICDUAL) a non-zero verdict is stored through the verdict out-parameter only behind a call that computes the exact basic dual solution of the basis, or behind a test that ties the tested dual vector to the basis (reduced costs of the basic variables vanish) - an optimality test of a primal / dual pair alone is a statement about the problem. (R-OPTPTR) a pointer parameter that a function compares with NULL, and for which NULL can arrive (public function, literal NULL at a call site, forwarded), is dereferenced only where a non-NULL fact holds (the optional dobjval of the verdict functions)."},
     "C13": {"technique": "; control-dependence analysis of scratch-mark resets and dependency-counter updates on conditions over exact numbers; "
                          "re-point summaries of pointer fields (bottom-up) + path-sensitive staleness typestate of their local copies",
             "explanation": " (R-SCRATCH) in the sparse kernels no clearing of a scratch mark (lpinfo::iwork) and no update of a dependency counter "
@@ -812,6 +813,12 @@ for _pid in ("C08", "C09", "C14", "C19"):
     _ADD[_pid]["explanation"] = _ADD[_pid].get("explanation", "") + (" (R-TRUNC) a snprintf / vsnprintf whose buffer the same function hands to an "
                                                                       "output stream has its returned length examined: output lines are never silently cut.")
     _ADD[_pid]["technique"] = _ADD[_pid].get("technique", "") + "; formatted-write census of the output layer (buffer-to-stream flow, return value use)"
+_ADD.setdefault("C17", {})
+_ADD["C17"]["explanation"] = _ADD["C17"].get("explanation", "") + (
+    " (R-PUBSTRUCT) a caller-supplied array of a public function is not subscripted inside a loop whose bound is a dimension of the internal "
+    "column space (the caller's vectors have one entry per row or per structural column), and no caller-supplied index is compared with "
+    "such a dimension. (R-OPTPTR) a pointer parameter that a function compares with NULL, and for which NULL can arrive, is dereferenced "
+    "only where a non-NULL fact for it holds on the path.")
 for _pid, _d in _ADD.items():
     for _k, _v in _d.items():
         PROPS[_pid][_k] = PROPS[_pid].get(_k, "") + _v
